@@ -30,8 +30,8 @@ ASSUMPTIONS = ["exact mode: interval monotonicity compared exactly; float mode: 
 PROBES = ["full_knowledge_reached", "torn_step_recovered", "probe_between_reveals", "sam_computer", "sa_computer",
           "env_path", "object_path", "registry_game", "heavy_sam_computer"]
 TIERS = {
-    "quick": {"runs": 6000, "wall": 45, "batch": 8, "shrink_s": 40},
-    "thorough": {"runs": 500000, "wall": 900, "batch": 16, "shrink_s": 120},
+    "quick": {"runs": 30000, "wall": 40, "batch": 16, "shrink_s": 40},
+    "thorough": {"runs": 5000000, "wall": 900, "batch": 24, "shrink_s": 120},
 }
 SA_KEYS = ["factory", "factory_square", "noisy_factory", "graph_random", "graph_cycle", "factory_cheerleader",
            "noisy_factory_exp", "graph_ws_connected"]
